@@ -145,11 +145,11 @@ func (m *member) observe() string {
 func TestC01(t *testing.T) {
 	rapid.Check(t, func(t *rapid.T) {
 		base := hx.GenTable(t, hx.TableOpt{MinCols: 2, MaxCols: 6, AllowDerived: true})
-		root := hx.Build(base)
+		root, origin := hx.BuildVia(t, base)
 		if root.Err != nil {
 			t.Fatalf("building the initial frame failed: %v", root.Err)
 		}
-		var log []string
+		log := []string{origin}
 		desc := func() string { return base.String() + strings.Join(log, "\n") }
 		family := []*member{}
 		nextGrp := 0
